@@ -29,6 +29,7 @@ LEAN_MODULE = "SnowProofs.Props.C04"
 THEOREMS = [
     dict(name="Snow.C04.run_sched", clause="any object state: a run uses the canonical draw schedule of its seed and shape", strength="full"),
     dict(name="Snow.C04.run_schedule_canonical", clause="every history ++ [seed = s, run] has the schedule of a fresh Snowflake(seed=s).run()", strength="full"),
+    dict(name="Snow.C04.run_outcome_canonical", clause="every history incl. seed_v assignments and property reads: generator schedule and vial deviates (seed_v, N) of the run equal those of a fresh Snowflake(seed=s, seed_v=v)", strength="full"),
     dict(name="Snow.C04.run_schedule_canonical_same_seed", clause="every history ++ [run] has the fresh schedule of the seed in force", strength="full"),
     dict(name="Snow.C04.record_independent", clause="events, schedules and object state do not depend on the deterministic storage selection", strength="full"),
     dict(name="Snow.C04.snowfall_mode_independent", clause="every mode, repetition count and chunking: task i has schedule canon(cfg, i)", strength="full"),
@@ -52,7 +53,8 @@ ASSUMPTIONS = [
     "deterministic storage selections only (a `random` selection consumes draws at construction - excluded by the property's wording)",
     "configuration (k, opcond, dt, constants) is not mutated between operations; N_vials may be reassigned (storeStates=None)",
 ]
-RULE = ("histories of up to 6 (quick) / 9 (thorough) operations new/seed=/`_buildHeatflowMatrices`/run/N_vials= on real "
+RULE = ("histories of up to 6 (quick) / 9 (thorough) operations new/seed=/seed_v=/`_buildHeatflowMatrices`/run/N_vials=/"
+        "reads of H_shelf and H_int in both orders on real "
         "3x3-and-smaller shelves with and without shelf variability; Snowfall in sequential/async/sync x pool_size "
         "{1,2,3,5} x Nrep {1,2,5,9} (also run twice); a case is non-trivial when it contains a run whose statistics "
         "have at least one nucleated vial")
@@ -128,6 +130,23 @@ def _install():
 
     np.random.default_rng = default_rng
 
+    # the global legacy generator (vial-dependent deviates): np.random.seed(seed_v); np.random.rand(N)
+    real_seed, real_rand = np.random.seed, np.random.rand
+    pending = [None]
+
+    def seed(*a, **kw):
+        if str(sys._getframe(1).f_globals.get("__name__", "")).startswith("ethz_snow"):
+            pending[0] = int(a[0]) if a else None
+        return real_seed(*a, **kw)
+
+    def rand(*a, **kw):
+        if str(sys._getframe(1).f_globals.get("__name__", "")).startswith("ethz_snow"):
+            EVENTS.append(("xi", pending[0], int(a[0]) if a else 1))
+            pending[0] = None      # a second draw without re-seeding would show as seed None
+        return real_rand(*a, **kw)
+
+    np.random.seed, np.random.rand = seed, rand
+
     orig_a = Snowfall._uniqueFlake.__func__
     orig_s = Snowfall._uniqueFlake_sync.__func__
 
@@ -178,6 +197,8 @@ def _plain(evs):
             out.append(["create", e[1]])
         elif e[0] == "normal":
             out.append(["normal", e[1]])
+        elif e[0] == "xi":
+            out.append(["xi", e[1], e[2]])
         else:
             out.append([e[0]])
     return out
@@ -258,17 +279,17 @@ def _final_event(case):
 DT = 5
 
 
-def _flake(case, seed, nv, store=None):
+def _flake(case, seed, nv, store=None, seed_v=2024):
     from ethz_snow.snowflake import Snowflake
 
-    return Snowflake(k=_k(case), N_vials=tuple(nv), dt=DT, seed=seed, opcond=_opcond(),
+    return Snowflake(k=_k(case), N_vials=tuple(nv), dt=DT, seed=seed, seed_v=seed_v, opcond=_opcond(),
                      storeStates=store)
 
 
-def _fresh(case, seed, nv, cache):
-    key = (seed, tuple(nv))
+def _fresh(case, seed, nv, cache, seed_v=2024):
+    key = (seed, tuple(nv), seed_v)
     if key not in cache:
-        S = _flake(case, seed, nv)
+        S = _flake(case, seed, nv, seed_v=seed_v)
         S.run()
         cache[key] = _digest(S.stats)
     return cache[key]
@@ -289,6 +310,12 @@ def _run_history(case, store=None):
             S._buildHeatflowMatrices()
         elif op[0] == "setN":
             S.N_vials = tuple(op[1:4])
+        elif op[0] == "setSeedV":
+            S.seed_v = op[1]
+        elif op[0] == "readShelf":
+            _ = S.H_shelf
+        elif op[0] == "readInt":
+            _ = S.H_int
         elif op[0] == "run":
             S.run()
         evs = EVENTS[mark:]
@@ -299,7 +326,9 @@ def _run_history(case, store=None):
             o["digest"] = _digest(S.stats)
             o["nucleated"] = int(np.sum(~np.isnan(S.stats["t_nucleation"])))
             o["seed"] = int(S.seed)
-            o["fresh"] = _fresh(case, int(S.seed), list(S.N_vials), fresh)
+            o["seed_v"] = int(S.seed_v)
+            o["xi"] = next(([e[1], e[2]] for e in evs if e[0] == "xi"), None)
+            o["fresh"] = _fresh(case, int(S.seed), list(S.N_vials), fresh, int(S.seed_v))
         ops_obs.append(o)
     return ops_obs
 
@@ -421,6 +450,9 @@ def _cmp_trace(ops_obs, trace, dis, where=""):
             if o["sched"] != trace["scheds"][runs]:
                 dis.append(f"{where}op {i} run: schedule impl {o['sched']} vs model {trace['scheds'][runs]}")
                 return
+            if o["xi"] != trace["xis"][runs]:
+                dis.append(f"{where}op {i} run: vial deviates drawn with (seed_v, N) = {o['xi']} vs model {trace['xis'][runs]}")
+                return
             runs += 1
 
 
@@ -447,7 +479,7 @@ def compare(case, impl, model):
             _cmp_trace(impl["ops"], model["trace_old"], d_old)
             if not d_old:
                 dis[0] = "implementation follows the PRE-REPAIR model (runOld, defect F3), not the repaired one: " + dis[0]
-        _same_sched_same_stats([(o["sched"], o["digest"]) for o in impl["ops"] if o["op"][0] == "run"], dis)
+        _same_sched_same_stats([([o["sched"], o["xi"]], o["digest"]) for o in impl["ops"] if o["op"][0] == "run"], dis)
     elif case["kind"] == "record":
         for v in impl["variants"]:
             _cmp_trace(v["ops"], model["trace"], dis, where=f"storeStates={v['store']!r}: ")
@@ -508,8 +540,8 @@ def predicates(case, impl):
             if o["op"][0] == "run" and o["digest"] != o["fresh"]:
                 out.append(Failure(
                     clause="run_schedule_canonical", key=f"history_independent|Snowflake.run|{var}",
-                    detail=f"after {[x['op'] for x in impl['ops'][:i]]} the run with seed {o['seed']}, N_vials "
-                           f"{o['sched']['nv']} differs bit-wise from Snowflake(seed={o['seed']}).run() "
+                    detail=f"after {[x['op'] for x in impl['ops'][:i]]} the run with seed {o['seed']}, seed_v {o['seed_v']}, N_vials "
+                           f"{o['sched']['nv']} differs bit-wise from Snowflake(seed={o['seed']}, seed_v={o['seed_v']}).run() "
                            f"(schedule used: {o['sched']})"))
                 break
     elif case["kind"] == "record":
@@ -551,7 +583,7 @@ def classify(case, impl):
     if case["kind"] == "history":
         tags.append(f"len={len(case['ops'])}")
         tags.append(f"runs={sum(1 for o in case['ops'] if o[0] == 'run')}")
-        for t in ("setN", "build"):
+        for t in ("setN", "build", "setSeedV", "readShelf", "readInt"):
             if any(o[0] == t for o in case["ops"]):
                 tags.append("has " + t)
         if any(o[0] == "setN" and o[3] > 1 or o[0] == "new" and o[4] > 1 for o in case["ops"]):
@@ -574,7 +606,8 @@ def nontrivial(case, impl):
 # ---------------------------------------------------------------------------
 # generators
 # ---------------------------------------------------------------------------
-SHAPES = [[3, 3, 1], [2, 2, 1], [1, 3, 1], [2, 1, 1], [2, 2, 2]]
+SHAPES = [[3, 3, 1], [2, 2, 1], [1, 3, 1], [2, 1, 1], [2, 2, 2], [3, 2, 1], [2, 3, 1], [3, 2, 1], [2, 3, 1]]
+SEEDS_V = [2024, 2, 7]
 SEEDS = [0, 1, 5, 7, 2021]
 
 
@@ -590,14 +623,46 @@ def _history(rng, maxlen):
             ops.append(["build"])
         elif r < 0.85:
             ops.append(["run"])
-        elif r < 0.95:
+        elif r < 0.93:
             ops.append(["setN"] + rng.choice(SHAPES))
+            # the lazy properties may be read in either order before the next run
+            k = rng.random()
+            if k < 0.3:
+                ops.append(["readShelf"])
+            elif k < 0.5:
+                ops += [["readShelf"], ["readInt"]]
+            elif k < 0.65:
+                ops += [["readInt"], ["readShelf"]]
+        elif r < 0.97:
+            ops.append(["setSeedV", rng.choice(SEEDS_V)])
         else:
             ops.append(["new", rng.choice(SEEDS)] + rng.choice(SHAPES))
     if rng.random() < 0.7 and len(ops) < maxlen:
         ops.append(["setSeed", rng.choice(SEEDS)])
     ops.append(["run"])
     return dict(kind="history", sigma=sigma, ops=ops[-maxlen:] if ops[-maxlen:][0][0] == "new" else ops[:1] + ops[-(maxlen - 1):])
+
+
+def _targeted(rng):
+    """vial-seed changes between runs; shape changes followed by property reads in both orders"""
+    sigma = rng.choice([0.1, 0, None])
+    s0, s1 = rng.choice(SEEDS), rng.choice(SEEDS)
+    a, b = rng.choice([([3, 2, 1], [2, 3, 1]), ([2, 3, 1], [3, 2, 1]), ([3, 3, 1], [2, 2, 1]), ([2, 2, 1], [1, 3, 1])])
+    v = rng.choice([2, 7])
+    k = rng.randrange(6)
+    if k == 0:
+        ops = [["new", s0] + a, ["run"], ["setSeedV", v], ["run"]]
+    elif k == 1:
+        ops = [["new", s0] + a, ["setSeedV", v], ["run"], ["setSeedV", 2024], ["setSeed", s1], ["run"]]
+    elif k == 2:
+        ops = [["new", s0] + a, ["build"], ["setN"] + b, ["readShelf"], ["run"]]
+    elif k == 3:
+        ops = [["new", s0] + a, ["run"], ["setN"] + b, ["readShelf"], ["readInt"], ["run"]]
+    elif k == 4:
+        ops = [["new", s0] + a, ["build"], ["setN"] + b, ["readInt"], ["readShelf"], ["setSeed", s1], ["run"]]
+    else:
+        ops = [["new", s0] + a, ["run"], ["setN"] + b, ["setSeedV", v], ["readShelf"], ["setSeed", s1], ["run"]]
+    return dict(kind="history", sigma=sigma, ops=ops)
 
 
 def _record(rng):
@@ -626,6 +691,8 @@ def cases(rng, tier):
     maxlen = 6 if quick else 9
     for _ in range(40 if quick else 400):
         yield _record_final(rng)
+    for _ in range(60 if quick else 600):
+        yield _targeted(rng)
     for _ in range(1200 if quick else 12000):
         yield _history(rng, maxlen)
     for _ in range(60 if quick else 400):
